@@ -100,6 +100,15 @@ Print Assumptions unicode_roundtrip.
 
 
 
+(** a leading U+FEFF is a character like any other: it is neither added nor stripped *)
+Example unicode_bom_example :
+  uni_to_bytes [65279; 65279; 120]%N = Some [239; 187; 191; 239; 187; 191; 120]%N /\
+  dec TUni [239; 187; 191; 239; 187; 191; 120]%N = Some (VUni [65279; 65279; 120]%N) /\
+  dec (TList TUni) (enc16 [239; 187; 191] ++ enc16 [97; 239; 187; 191])%N = Some (VList [VUni [65279]; VUni [97; 65279]]%N).
+Proof. exact unicode_bom_example_proof. Qed.
+
+
+
 Example decimal_example :
   dec_to_text (DFin true 12345 (-7)) = [45; 48; 46; 48; 48; 49; 50; 51; 52; 53]%N /\
   dec_to_text (DFin false 12345 (-12)) = [49; 46; 50; 51; 52; 53; 69; 45; 56]%N /\
